@@ -213,7 +213,7 @@ func validate(c *core.Ctx, nt int, segs []segment) (bad int, event []byte, event
 	}
 	r, err := c.TLC(core.TLCOpts{Module: "TraceUdpTransport", Cfg: "TraceUdpTransport.cfg",
 		Consts: map[string]string{"NT": strconv.Itoa(nt)}, Files: map[string][]byte{"trace.ndjson": buf.Bytes()},
-		Workers: 1, Timeout: 12 * time.Minute, HeapMB: 3072})
+		Workers: 1, Timeout: 40 * time.Minute, HeapMB: 3072})
 	if err != nil {
 		return -1, nil, 0, err
 	}
@@ -616,7 +616,7 @@ func runC36(c *core.Ctx) error {
 	var mcs []mcCfg
 	if c.Thorough() {
 		mcs = []mcCfg{
-			{name: "safety-3-messages", nt: 2, mem: 4, msgs: 3, faults: 1, net: 2, hdr: 1, burst: 1, ch: 2, patient: true, workers: 7},
+			{name: "safety-3-messages-2-faults", nt: 2, mem: 4, msgs: 3, faults: 2, net: 2, hdr: 2, burst: 2, ch: 1, patient: true, workers: 4},
 			{name: "safety", nt: 2, mem: 3, msgs: 2, faults: 1, net: 2, hdr: 2, burst: 2, ch: 2, patient: true, workers: 3},
 			{name: "safety-2-faults", nt: 2, mem: 3, msgs: 2, faults: 2, net: 2, hdr: 1, burst: 1, ch: 2, patient: true, workers: 3},
 			{name: "safety-eager-timers", nt: 2, mem: 2, msgs: 1, faults: 1, net: 2, hdr: 1, burst: 1, ch: 2, workers: 2, cover: true},
@@ -642,7 +642,7 @@ func runC36(c *core.Ctx) error {
 				cfg = "MC_UdpTransportLive.cfg"
 			}
 			r, err := c.MustTLC(core.TLCOpts{Module: "MC_UdpTransport", Cfg: cfg, Consts: m.consts(), Workers: m.workers,
-				Coverage: m.cover, Timeout: time.Duration(c.Pick(300, 1150)) * time.Second, HeapMB: 6000})
+				Coverage: m.cover, Timeout: time.Duration(c.Pick(600, 2700)) * time.Second, HeapMB: 6000})
 			if err != nil {
 				k.fail(fmt.Errorf("%s: %v", m, err))
 				return
@@ -667,7 +667,7 @@ func runC36(c *core.Ctx) error {
 			m := mcCfg{nt: 2, mem: 2, msgs: 1, faults: 1, net: 2, hdr: 1, burst: 1, ch: 2, patient: true}
 			cs := m.consts()
 			cs["SPEC"] = "Spec"
-			r, err := c.TLC(core.TLCOpts{Module: "MC_UdpTransport", Cfg: "MC_UdpTransportLive.cfg", Consts: cs, Workers: 2, Timeout: 10 * time.Minute})
+			r, err := c.TLC(core.TLCOpts{Module: "MC_UdpTransport", Cfg: "MC_UdpTransportLive.cfg", Consts: cs, Workers: 2, Timeout: 30 * time.Minute})
 			if err != nil {
 				k.fail(err)
 				return
@@ -698,7 +698,7 @@ func runC36(c *core.Ctx) error {
 				defer wg.Done()
 				r, err := c.TLC(core.TLCOpts{Module: "SimUdpTransport", Cfg: "SimUdpTransport.cfg", Consts: consts, Workers: 1,
 					Simulate: fmt.Sprintf("num=%d", c.Pick(22, 220)), Depth: depth, Seed: c.Seed*1000 + int64(j),
-					Timeout: time.Duration(c.Pick(240, 900)) * time.Second, HeapMB: 2048})
+					Timeout: time.Duration(c.Pick(600, 1800)) * time.Second, HeapMB: 2048})
 				if err != nil || (!r.OK && r.ErrorKind != "") {
 					if err == nil {
 						err = fmt.Errorf("%s %s", r.ErrorKind, r.ErrorText)
